@@ -279,7 +279,8 @@ func (w *walker) walkParts(up Op, max int) {
 	for _, p := range up.List("parts") {
 		po := Op(p.(map[string]interface{}))
 		body := w.x.Conc.Body(po.Atoms("body"))
-		live = append(live, wEntry{K: []interface{}{float64(po.I("n") / 256), float64(po.I("n") % 256)}, ID: strconv.Itoa(po.I("n")),
+		pn := w.x.Conc.PartNum(po.I("n"))
+		live = append(live, wEntry{K: []interface{}{float64(pn / 256), float64(pn % 256)}, ID: strconv.Itoa(pn),
 			A: fmt.Sprintf("%d/%s", len(body), quoteETag(body))})
 	}
 	w.emit(wEvent{T: "start", Kind: "parts", Exact: true, Pag: true, Max: max, Live: live, Style: "parts"})
